@@ -12,7 +12,7 @@ from ..common import Report, finish
 from ..facts import AnalysisBroken
 from ..terms import C, ZERO, short, is_const, INF, mk_byte, mk_cat, bitop_byte, lin_of, Dom
 from .. import mem
-from .dispatch import OP
+from .dispatch import OP, OPNAME
 from .c03 import own_mac_byte
 from .frame_common import (FrameSetup, run_regions, Snap, sends, effects, SEEN_COUNT, TOS, OPC, request_alloc)
 from .automata_common import load_core
@@ -67,6 +67,7 @@ def run(tier):
     rep.rule('R07.f', 'observations that were reported are released; a complete report empties the list', floor=2)
     rep.rule('R07.g', 'count bookkeeping: linking adds exactly one, the recorded count is what the report uses', floor=2)
     rep.rule('R07.h', 'the list accepts at least 300 distinct observations between Queries (property quantifier)', floor=1)
+    rep.rule('R07.j', 'only Probe/Train (add), Query (report and release) and Reset (discard) touch the record of observations: every other (ToS, opcode) cell leaves list head and count unchanged', floor=20)
     rep.rule('R07.i', 'every descriptor announced in the count field is serialised: the report loop stops only when all announced descriptors are copied (or the list ends); frame length = 34 + 20 x announced count', floor=2)
     decide(rep, prog)
     return finish(rep, 'other',
@@ -306,6 +307,34 @@ def decide(rep, prog):
     if truncated_paths[0] and not nominal_seen[0]:
         rep.fail('R07.g', 'query|count-after-partial-nominal', 'no path of a partial report leaves count = count - reported', function='parseQuery', file=fnf)
     rep.analysed.update({'observer_paths': {'linked': linked, 'dropped': dropped, 'not_for_us': notforus}, 'query_paths': nq, 'node_from_frame': node_from_frame})
+    keep_between_queries(rep, fnf)
+
+
+def keep_between_queries(rep, fnf):
+    """R07.j: the record of observations lives from Probe/Train to the Query that reports it (or the Reset that discards it):
+    in the complete dispatch matrix, every other (ToS, opcode) cell - Discover, Hello, Emit, QueryLargeTlv, frames of other
+    services, unknown opcodes - leaves the list head and its count exactly as they were."""
+    from .dispatch import analyse
+    from .frame_common import record_field
+    fs2, sums, _obs, _stats = analyse(mtu_ok=True)
+    roles = [record_field(fs2.srec, r)[0] for r in ('see_list', 'see_list_count')]
+    may = {OP['probe'], OP['train'], OP['query'], OP['reset']}
+    n = 0
+    for region, lst in sorted(sums.items()):
+        for s in lst:
+            tv, ov = s.tos.values(), s.op.values()
+            if all(t in (0, 1) for t in tv) and set(ov) <= may:
+                continue
+            n += 1
+            touched = [f for f in s.changed_fields(()) if f in roles]
+            what = 'ToS %s, opcode %s' % (s.tos, '+'.join(OPNAME.get(o, str(o)) for o in ov) if len(ov) <= 4 else s.op)
+            rep.check(not touched, 'R07.j', 'list-touched|%s|%s' % (','.join(str(t) for t in tv) if len(tv) <= 2 else 'tos[%d..%d]' % (tv[0], tv[-1]),
+                                                                      '+'.join(OPNAME.get(o, str(o)) for o in ov) if len(ov) <= 4 else 'op[%d..%d]' % (ov[0], ov[-1])),
+                      'a frame that is neither Probe/Train, Query nor Reset of the discovery services (%s) changes the record of observations (%s): '
+                      'observations no Query has reported are lost or altered between Queries' % (what, ', '.join(touched)),
+                      function='parseFrame', file=fnf)
+    if n == 0:
+        rep.broke('dispatch matrix has no cell outside Probe/Train/Query/Reset')
 
 
 def cursor_null_at_exit(st, loops, report_loops):
